@@ -955,6 +955,43 @@ int GOMP_loop_ull_dynamic_next(ull *is, ull *ie) {
     return GOMP_loop_ull_nonmonotonic_dynamic_next(is, ie);
 }
 
+int GOMP_loop_ull_guided_start(int up, ull s, ull e, ull i, ull c, ull *is, ull *ie) {
+    long a, b;
+    int r = loop_start_common((long)s, (long)e, up ? (long)i : -(long)(-i), (long)c, &a, &b, 1);
+    *is = (ull)a;
+    *ie = (ull)b;
+    return r;
+}
+int GOMP_loop_ull_nonmonotonic_guided_start(int up, ull s, ull e, ull i, ull c, ull *is,
+                                            ull *ie) {
+    return GOMP_loop_ull_guided_start(up, s, e, i, c, is, ie);
+}
+int GOMP_loop_ull_runtime_start(int up, ull s, ull e, ull i, ull *is, ull *ie) {
+    return GOMP_loop_ull_nonmonotonic_dynamic_start(up, s, e, i, 1, is, ie);
+}
+int GOMP_loop_ull_nonmonotonic_runtime_start(int up, ull s, ull e, ull i, ull *is, ull *ie) {
+    return GOMP_loop_ull_nonmonotonic_dynamic_start(up, s, e, i, 1, is, ie);
+}
+int GOMP_loop_ull_maybe_nonmonotonic_runtime_start(int up, ull s, ull e, ull i, ull *is,
+                                                   ull *ie) {
+    return GOMP_loop_ull_nonmonotonic_dynamic_start(up, s, e, i, 1, is, ie);
+}
+int GOMP_loop_ull_guided_next(ull *is, ull *ie) {
+    return GOMP_loop_ull_nonmonotonic_dynamic_next(is, ie);
+}
+int GOMP_loop_ull_nonmonotonic_guided_next(ull *is, ull *ie) {
+    return GOMP_loop_ull_nonmonotonic_dynamic_next(is, ie);
+}
+int GOMP_loop_ull_runtime_next(ull *is, ull *ie) {
+    return GOMP_loop_ull_nonmonotonic_dynamic_next(is, ie);
+}
+int GOMP_loop_ull_nonmonotonic_runtime_next(ull *is, ull *ie) {
+    return GOMP_loop_ull_nonmonotonic_dynamic_next(is, ie);
+}
+int GOMP_loop_ull_maybe_nonmonotonic_runtime_next(ull *is, ull *ie) {
+    return GOMP_loop_ull_nonmonotonic_dynamic_next(is, ie);
+}
+
 /* combined parallel + loop */
 static void parallel_loop(void (*fn)(void *), void *data, unsigned nt, long s, long e, long i,
                           long c, int guided) {
@@ -1045,6 +1082,16 @@ unsigned GOMP_sections_next(void) {
     if (w && w->next <= w->end)
         return (unsigned)(w->next++);
     return 0;
+}
+void GOMP_parallel_sections(void (*fn)(void *), void *data, unsigned nt, unsigned count,
+                            unsigned flags) {
+    (void)flags;
+    WorkShare w;
+    memset(&w, 0, sizeof w);
+    w.kind = 3;
+    w.next = 1;
+    w.end = (long)count;
+    parallel_impl(fn, data, nt, &w);
 }
 void GOMP_sections_end_nowait(void) { GOMP_loop_end_nowait(); }
 void GOMP_sections_end(void) { GOMP_loop_end(); }
@@ -1434,3 +1481,31 @@ void GOMP_ordered_start(void) { set_err(ERR_UNSUPPORTED, "omp ordered is not mod
 void GOMP_ordered_end(void) {}
 void GOMP_taskwait(void) {}
 void GOMP_taskyield(void) { step_point(0); }
+/* explicit tasks: executed by the encountering thread at the point of creation (an undeferred
+ * task is a legal execution of every task construct); the scheduling point before and after
+ * lets the other simulated threads interleave with it */
+void GOMP_task(void (*fn)(void *), void *data, void (*cpyfn)(void *, void *), long arg_size,
+               long arg_align, _Bool if_clause, unsigned flags, void **depend, int priority,
+               void *detach) {
+    (void)if_clause;
+    (void)flags;
+    (void)depend;
+    (void)priority;
+    (void)detach;
+    if (g_team)
+        step_point(0);
+    if (cpyfn) {
+        long al = arg_align > 0 ? arg_align : 16;
+        char *buf = (char *)malloc((size_t)arg_size + (size_t)al);
+        char *arg = (char *)(((uintptr_t)buf + (uintptr_t)al - 1) & ~((uintptr_t)al - 1));
+        cpyfn(arg, data);
+        fn(arg);
+        free(buf);
+    } else {
+        fn(data);
+    }
+    if (g_team)
+        step_point(0);
+}
+void GOMP_taskgroup_start(void) {}
+void GOMP_taskgroup_end(void) {}
